@@ -82,19 +82,20 @@ CLAIMED = {
             "statement-by-statement models of all eight strategy classes, the whole step keeps every connector within its "
             "currently valid limit: greedy/balanced (both sides, with battery support), distributed (limits restored), "
             "schedule, flex_window (balanced unconditional; greedy; needy in exact arithmetic), peak_shaving, "
-            "peak_load_window, balanced_market; theorems named _partial state exactly what they exclude (V2G for "
-            "balanced_market and the feed-in side of schedule-collective, surplus with batteries for peak_load_window, "
-            "exact-delivery battery contracts). The loop model and every strategy model are compared bit-for-bit with the "
+            "peak_load_window, balanced_market; theorems named _partial state exactly what they exclude (the draw side with "
+            "V2G-capable vehicles for balanced_market, exact-delivery battery contracts, float rounding of needy "
+            "shares). The loop model and every strategy model are compared bit-for-bit with the "
             "real code on every step of generated real runs inside this check. Limit = min(rating, latest signal) and "
             "the run-level sentence are additionally decided by an independent oracle on the real outputs; one narrow "
-            "finding is left (peak_load_window at negative SoC). 16 genuine strategy defects were repaired in /repo.",
+            "finding is left (peak_load_window at negative SoC). 19 genuine strategy defects were repaired in /repo.",
             "Lean 4 proof (run-loop monitor + whole-step limit theorems on 8 strategy models) + bit-level Float correspondence of loop and strategy steps on real runs + oracle on real runs",
             "DESIGN.md I.4, §4 C04"),
     "C05": ("Lean theorems: station monitor for every strategy; clamp_power laws (non-negative, <= offered, keeps the "
             "station within its maximum, minimum-power cut-off, monotone); on the strategy models the whole step keeps "
             "every station within its (concurrency-scaled) maximum in both directions, only stations with a connected "
-            "vehicle carry power and nothing is discharged without V2G (greedy/balanced, flex_window balanced, "
-            "peak_shaving, peak_load_window, balanced_market, schedule individual; collective without V2G). clamp_power "
+            "vehicle carry power and nothing is discharged without V2G (greedy/balanced, flex_window all sub-strategies, "
+            "peak_shaving, peak_load_window, balanced_market, schedule individual and collective, distributed upper "
+            "bound). clamp_power "
             "is compared exactly (exhaustive rational grid), loop and strategy steps bit-for-bit on real runs. The "
             "vehicle-curve sentence is decided by the oracle from the battery-operation trace: six strategies load a "
             "battery several times per step (known findings keyed by that mechanism; proved impossible for "
@@ -102,15 +103,15 @@ CLAIMED = {
             "Lean 4 proof (monitor, clamp laws, whole-step station theorems on the strategy models) + exact/bit-level correspondence + operation-trace oracle on real runs",
             "DESIGN.md I.4, §4 C05"),
     "C06": ("Reported connector power = curtailed sum of its loads (every strategy) and the self-discharge step (formula, "
-            "only lowers, never below zero) are Lean theorems; on the strategy models: schedule-individual changes every "
-            "vehicle's energy by exactly command x T x eta and books signed battery power, peak_shaving changes the world "
-            "only through booked charges (look-ahead simulations leave no trace), flex_window's station entries equal the "
-            "station powers. apply_battery_losses is compared exactly on a rational grid, loop and strategy steps "
+            "only lowers, never below zero) are Lean theorems; on six strategy models the step changes the world only through "
+            "booked battery calls - look-ahead simulations leave no trace, connector load / station entry / command move "
+            "by the signed average power of the real call (schedule incl. the energy identity per vehicle, peak_shaving, "
+            "peak_load_window, balanced_market, flex_window, distributed). apply_battery_losses is compared exactly on a rational grid, loop and strategy steps "
             "bit-for-bit on real runs. For the other strategies the per-step energy bookkeeping of vehicles and batteries "
             "is decided by an oracle that reconstructs the chain of battery operations of the step from the run-time "
             "trace (every operation: dSoC = P*dt*eta/c resp. /eta; booked station power = signed sum; commands name every "
             "station that carries power); the battery-level identity it rests on is C01.",
-            "Lean 4 proof (sum identity, losses, booking theorems on three strategy models) + exact/bit-level correspondence + operation-chain oracle on real runs",
+            "Lean 4 proof (sum identity, losses, booking theorems on six strategy models) + exact/bit-level correspondence + operation-chain oracle on real runs",
             "DESIGN.md I.4, §4 C06"),
     "C07": ("Bucket index = max 0 ceil((signal-start)/dt) with 'kept iff < n', the step at which each event takes "
             "effect (first step at/after its start and not before it was signalled; exactly once), the value in force = "
@@ -227,19 +228,20 @@ CLAIMED = {
             "statement-by-statement models of all eight strategy classes, the whole step keeps every connector within its "
             "currently valid limit: greedy/balanced (both sides, with battery support), distributed (limits restored), "
             "schedule, flex_window (balanced unconditional; greedy; needy in exact arithmetic), peak_shaving, "
-            "peak_load_window, balanced_market; theorems named _partial state exactly what they exclude (V2G for "
-            "balanced_market and the feed-in side of schedule-collective, surplus with batteries for peak_load_window, "
-            "exact-delivery battery contracts). The loop model and every strategy model are compared bit-for-bit with the "
+            "peak_load_window, balanced_market; theorems named _partial state exactly what they exclude (the draw side with "
+            "V2G-capable vehicles for balanced_market, exact-delivery battery contracts, float rounding of needy "
+            "shares). The loop model and every strategy model are compared bit-for-bit with the "
             "real code on every step of generated real runs inside this check. Limit = min(rating, latest signal) and "
             "the run-level sentence are additionally decided by an independent oracle on the real outputs; one narrow "
-            "finding is left (peak_load_window at negative SoC). 16 genuine strategy defects were repaired in /repo.",
+            "finding is left (peak_load_window at negative SoC). 19 genuine strategy defects were repaired in /repo.",
             "Lean 4 proof (run-loop monitor + whole-step limit theorems on 8 strategy models) + bit-level Float correspondence of loop and strategy steps on real runs + oracle on real runs",
             "DESIGN.md I.4, §4 C04"),
     "C05": ("Lean theorems: station monitor for every strategy; clamp_power laws (non-negative, <= offered, keeps the "
             "station within its maximum, minimum-power cut-off, monotone); on the strategy models the whole step keeps "
             "every station within its (concurrency-scaled) maximum in both directions, only stations with a connected "
-            "vehicle carry power and nothing is discharged without V2G (greedy/balanced, flex_window balanced, "
-            "peak_shaving, peak_load_window, balanced_market, schedule individual; collective without V2G). clamp_power "
+            "vehicle carry power and nothing is discharged without V2G (greedy/balanced, flex_window all sub-strategies, "
+            "peak_shaving, peak_load_window, balanced_market, schedule individual and collective, distributed upper "
+            "bound). clamp_power "
             "is compared exactly (exhaustive rational grid), loop and strategy steps bit-for-bit on real runs. The "
             "vehicle-curve sentence is decided by the oracle from the battery-operation trace: six strategies load a "
             "battery several times per step (known findings keyed by that mechanism; proved impossible for "
@@ -247,15 +249,15 @@ CLAIMED = {
             "Lean 4 proof (monitor, clamp laws, whole-step station theorems on the strategy models) + exact/bit-level correspondence + operation-trace oracle on real runs",
             "DESIGN.md I.4, §4 C05"),
     "C06": ("Reported connector power = curtailed sum of its loads (every strategy) and the self-discharge step (formula, "
-            "only lowers, never below zero) are Lean theorems; on the strategy models: schedule-individual changes every "
-            "vehicle's energy by exactly command x T x eta and books signed battery power, peak_shaving changes the world "
-            "only through booked charges (look-ahead simulations leave no trace), flex_window's station entries equal the "
-            "station powers. apply_battery_losses is compared exactly on a rational grid, loop and strategy steps "
+            "only lowers, never below zero) are Lean theorems; on six strategy models the step changes the world only through "
+            "booked battery calls - look-ahead simulations leave no trace, connector load / station entry / command move "
+            "by the signed average power of the real call (schedule incl. the energy identity per vehicle, peak_shaving, "
+            "peak_load_window, balanced_market, flex_window, distributed). apply_battery_losses is compared exactly on a rational grid, loop and strategy steps "
             "bit-for-bit on real runs. For the other strategies the per-step energy bookkeeping of vehicles and batteries "
             "is decided by an oracle that reconstructs the chain of battery operations of the step from the run-time "
             "trace (every operation: dSoC = P*dt*eta/c resp. /eta; booked station power = signed sum; commands name every "
             "station that carries power); the battery-level identity it rests on is C01.",
-            "Lean 4 proof (sum identity, losses, booking theorems on three strategy models) + exact/bit-level correspondence + operation-chain oracle on real runs",
+            "Lean 4 proof (sum identity, losses, booking theorems on six strategy models) + exact/bit-level correspondence + operation-chain oracle on real runs",
             "DESIGN.md I.4, §4 C06"),
     "C07": ("Bucket index = max 0 ceil((signal-start)/dt) with 'kept iff < n', the step at which each event takes "
             "effect (first step at/after its start and not before it was signalled; exactly once), the value in force = "
@@ -400,19 +402,20 @@ CLAIMED = {
             "statement-by-statement models of all eight strategy classes, the whole step keeps every connector within its "
             "currently valid limit: greedy/balanced (both sides, with battery support), distributed (limits restored), "
             "schedule, flex_window (balanced unconditional; greedy; needy in exact arithmetic), peak_shaving, "
-            "peak_load_window, balanced_market; theorems named _partial state exactly what they exclude (V2G for "
-            "balanced_market and the feed-in side of schedule-collective, surplus with batteries for peak_load_window, "
-            "exact-delivery battery contracts). The loop model and every strategy model are compared bit-for-bit with the "
+            "peak_load_window, balanced_market; theorems named _partial state exactly what they exclude (the draw side with "
+            "V2G-capable vehicles for balanced_market, exact-delivery battery contracts, float rounding of needy "
+            "shares). The loop model and every strategy model are compared bit-for-bit with the "
             "real code on every step of generated real runs inside this check. Limit = min(rating, latest signal) and "
             "the run-level sentence are additionally decided by an independent oracle on the real outputs; one narrow "
-            "finding is left (peak_load_window at negative SoC). 16 genuine strategy defects were repaired in /repo.",
+            "finding is left (peak_load_window at negative SoC). 19 genuine strategy defects were repaired in /repo.",
             "Lean 4 proof (run-loop monitor + whole-step limit theorems on 8 strategy models) + bit-level Float correspondence of loop and strategy steps on real runs + oracle on real runs",
             "DESIGN.md I.4, §4 C04"),
     "C05": ("Lean theorems: station monitor for every strategy; clamp_power laws (non-negative, <= offered, keeps the "
             "station within its maximum, minimum-power cut-off, monotone); on the strategy models the whole step keeps "
             "every station within its (concurrency-scaled) maximum in both directions, only stations with a connected "
-            "vehicle carry power and nothing is discharged without V2G (greedy/balanced, flex_window balanced, "
-            "peak_shaving, peak_load_window, balanced_market, schedule individual; collective without V2G). clamp_power "
+            "vehicle carry power and nothing is discharged without V2G (greedy/balanced, flex_window all sub-strategies, "
+            "peak_shaving, peak_load_window, balanced_market, schedule individual and collective, distributed upper "
+            "bound). clamp_power "
             "is compared exactly (exhaustive rational grid), loop and strategy steps bit-for-bit on real runs. The "
             "vehicle-curve sentence is decided by the oracle from the battery-operation trace: six strategies load a "
             "battery several times per step (known findings keyed by that mechanism; proved impossible for "
@@ -420,15 +423,15 @@ CLAIMED = {
             "Lean 4 proof (monitor, clamp laws, whole-step station theorems on the strategy models) + exact/bit-level correspondence + operation-trace oracle on real runs",
             "DESIGN.md I.4, §4 C05"),
     "C06": ("Reported connector power = curtailed sum of its loads (every strategy) and the self-discharge step (formula, "
-            "only lowers, never below zero) are Lean theorems; on the strategy models: schedule-individual changes every "
-            "vehicle's energy by exactly command x T x eta and books signed battery power, peak_shaving changes the world "
-            "only through booked charges (look-ahead simulations leave no trace), flex_window's station entries equal the "
-            "station powers. apply_battery_losses is compared exactly on a rational grid, loop and strategy steps "
+            "only lowers, never below zero) are Lean theorems; on six strategy models the step changes the world only through "
+            "booked battery calls - look-ahead simulations leave no trace, connector load / station entry / command move "
+            "by the signed average power of the real call (schedule incl. the energy identity per vehicle, peak_shaving, "
+            "peak_load_window, balanced_market, flex_window, distributed). apply_battery_losses is compared exactly on a rational grid, loop and strategy steps "
             "bit-for-bit on real runs. For the other strategies the per-step energy bookkeeping of vehicles and batteries "
             "is decided by an oracle that reconstructs the chain of battery operations of the step from the run-time "
             "trace (every operation: dSoC = P*dt*eta/c resp. /eta; booked station power = signed sum; commands name every "
             "station that carries power); the battery-level identity it rests on is C01.",
-            "Lean 4 proof (sum identity, losses, booking theorems on three strategy models) + exact/bit-level correspondence + operation-chain oracle on real runs",
+            "Lean 4 proof (sum identity, losses, booking theorems on six strategy models) + exact/bit-level correspondence + operation-chain oracle on real runs",
             "DESIGN.md I.4, §4 C06"),
     "C07": ("Bucket index = max 0 ceil((signal-start)/dt) with 'kept iff < n', the step at which each event takes "
             "effect (first step at/after its start and not before it was signalled; exactly once), the value in force = "
